@@ -5,7 +5,7 @@ import itertools, json, os, random, concurrent.futures
 import vlib, pydiff
 
 THEOREMS = ["C14_len_counts_code_points", "C14_pos_is_prefix_width", "C14_slice_by_code_points", "C14_repr_eval_roundtrip",
-            "C14_find_by_code_points", "C14_find_is_least_occurrence", "C14_find_none_means_absent", "C14_startswith_by_code_points", "C14_contains_by_code_points", "C14_count_by_code_points"]
+            "C14_find_by_code_points", "C14_find_is_least_occurrence", "C14_find_none_means_absent", "C14_startswith_by_code_points", "C14_contains_by_code_points", "C14_count_by_code_points", "C14_endswith_by_code_points"]
 ALPHA = ["a", "b", " ", "'", '"', "\\", "\n", "\x00", "\x7f", "é", "€", "\U0001F600", "ß"]
 
 def lit(s):
@@ -137,7 +137,7 @@ def coq_slices(name, rows):
     return v, out[-300:]
 
 def coq_search(name, rows):
-    """rows: (kind, cps, sub, beg, end, observed) with kind 0 = find, 1 = count, 2 = startswith; the implementation's
+    """rows: (kind, cps, sub, beg, end, observed) with kind 0 = find, 1 = count, 2 = startswith, 3 = endswith; the implementation's
     answer must equal the byte-level model (Model/StrSearch.v) AND, for find/startswith, Python's rule over code points"""
     text = ("From Coq Require Import List Bool Arith NArith ZArith. Import ListNotations.\nFrom GP Require Import Model.Utf8 Model.StrSearch.\n"
       "Definition cases : list (nat * list N * list N * Z * Z * Z) := [\n" + ";\n".join(rows) + "].\n"
@@ -145,7 +145,8 @@ def coq_search(name, rows):
       "Definition ok (c : nat * list N * list N * Z * Z * Z) : bool := let '(k, s, sub, b, e, o) := c in\n"
       "  match k with O => Z.eqb (find_model (encode s) (encode sub) b e) o && Z.eqb (cp_find s sub b e) o\n"
       "  | 1%nat => Z.eqb (count_model (encode s) (encode sub) b e) o && Z.eqb (cp_count s sub b e) o\n"
-      "  | _ => Z.eqb (b2z (startswith_model (encode s) (encode sub) b e)) o && Z.eqb (b2z (cp_startswith s sub b e)) o end.\n"
+      "  | 2%nat => Z.eqb (b2z (startswith_model (encode s) (encode sub) b e)) o && Z.eqb (b2z (cp_startswith s sub b e)) o\n"
+      "  | _ => Z.eqb (b2z (endswith_model (encode s) (encode sub) b e)) o && Z.eqb (b2z (cp_endswith s sub b e)) o end.\n"
       "Fixpoint bad (i : nat) (l : list (nat * list N * list N * Z * Z * Z)) : list nat := match l with [] => [] | c :: r => if ok c then bad (S i) r else i :: bad (S i) r end.\n"
       "Definition M := Eval vm_compute in bad 0 cases.\nPrint M.\n")
     rc, out = vlib.coqc_run(name, text, timeout=600)
@@ -158,8 +159,8 @@ def check(res):
     rnd = random.Random(seed)
     res.trusted = vlib.COMMON_TRUST + [
         "Model/Utf8.v models len/pos/slice over byte lists for valid UTF-8; tied to the implementation by comparing s[a:b] for generated strings with the model inside Coq",
-        "Model/StrSearch.v models find/Count/window+HasPrefix/Contains of py/string.go over byte lists, with Go's strings.Index/HasPrefix/Count as list functions; tied by comparing s.find/count/startswith (with start/end) of the implementation with the model AND with the code-point rule inside Coq",
-        "endswith/split/join/strip/replace/compare/repeat/ord/chr/eval (and find/count/startswith once more) are compared with CPython (validated oracle, testing); Go's unicode tables (IsSpace, IsPrint, case mapping) are trusted"]
+        "Model/StrSearch.v models find/Count/window+HasPrefix/Contains of py/string.go over byte lists, with Go's strings.Index/HasPrefix/Count as list functions; tied by comparing s.find/count/startswith/endswith (with start/end) of the implementation with the model AND with the code-point rule inside Coq",
+        "split/join/strip/replace/compare/repeat/ord/chr/eval (and find/count/startswith/endswith once more) are compared with CPython (validated oracle, testing); Go's unicode tables (IsSpace, IsPrint, case mapping) are trusted"]
     res.assumptions = ["CPython 3.11 agrees with Python 3.4 on str operations for the alphabet used (repr of non-printable characters included)"]
     built, mlog = vlib.coq_make()
     p_ok = "Props/C14.vo" in built
@@ -218,7 +219,7 @@ def check(res):
                     val = eval(got, {"__builtins__": {}}, {})
                     if case["op"] == "startsends_bounds":
                         if isinstance(val, tuple) and len(val) == 7 and all(isinstance(x, (bool, int)) for x in val):
-                            srow(2, case["beg"], len(s), int(val[0])); srow(2, case["beg"], case["end"], int(val[1])); srow(1, case["beg"], case["end"], int(val[4]))
+                            srow(2, case["beg"], len(s), int(val[0])); srow(2, case["beg"], case["end"], int(val[1])); srow(3, case["beg"], len(s), int(val[2])); srow(3, case["beg"], case["end"], int(val[3])); srow(1, case["beg"], case["end"], int(val[4]))
                     elif isinstance(val, int):
                         srow(1 if case["op"] == "count" else 0, case.get("beg", 0), case.get("end", len(s)), val)
                 except Exception:
@@ -238,7 +239,7 @@ def check(res):
         for sh, (v, log) in zip(sshards, ex.map(lambda a: coq_search("C14_search_%d" % a[0], [srows[i] for i in a[1]]), list(enumerate(sshards)))):
             if v is None: s_err = log
             else: s_bad += [srowmeta[sh[i]] for i in v]
-    res.oblige("correspondence: find/count/startswith (with windows) of the implementation = Model/StrSearch.v over the UTF-8 bytes and = the code-point rule, on %d cases (vm_compute)" % len(srows), s_err is None and not s_bad and len(srows) > 1000, s_err or str(s_bad[:3]))
+    res.oblige("correspondence: find/count/startswith/endswith (with windows) of the implementation = Model/StrSearch.v over the UTF-8 bytes and = the code-point rule, on %d cases (vm_compute)" % len(srows), s_err is None and not s_bad and len(srows) > 1000, s_err or str(s_bad[:3]))
     # --- tie: repr text and its evaluation vs Model/Repr.v + Model/Escape.v
     rcases = repr_cases(tier, seed); robs = run_repr(rcases)
     repr_bad = []; repr_err = None
@@ -256,7 +257,7 @@ def check(res):
         rule="all strings of length <= 2 and seeded strings of length 3..9 over an alphabet of 1-, 2-, 3- and 4-byte characters, both quotes, backslash, newline, NUL and DEL; per string: len, iteration, every index, slices, in/find(+start/end)/count/startswith/endswith/split/replace/join with substrings taken from the string and the alphabet, strip, comparison, repetition, ord/chr, repr, eval(repr(x)) == x (also nested in tuple/list with int/float/big int); compared with CPython; non-trivial = the string contains a multi-byte character",
         samples=[dict(string=[hex(ord(c)) for c in ss[200]], first_lines=impl[200].get("out", "").splitlines()[:3])],
         distribution=dict(strings=len(ss), lines=n, model_checked_slices=len(rows), model_checked_reprs=len(rcases), model_checked_searches=len(srows)), oracle_disagreements=len(mism),
-        modelled_not_verified=["strings.Index/HasPrefix/Count as list functions (Model/StrSearch.v: index_from, is_prefix, count_go; find/startswith/in/count proved equal to the code-point rule)", "strings.Split/Replace (CPython differential only)", "strconv.IsPrint (a parameter of the repr theorem, measured in the correspondence)", "repr of bytes/float/containers (CPython differential only)", "unicode tables"])
+        modelled_not_verified=["strings.Index/HasPrefix/HasSuffix/Count as list functions (Model/StrSearch.v: index_from, is_prefix, is_suffix, count_go; find/startswith/endswith/in/count proved equal to the code-point rule)", "strings.Split/Replace (CPython differential only)", "strconv.IsPrint (a parameter of the repr theorem, measured in the correspondence)", "repr of bytes/float/containers (CPython differential only)", "unicode tables"])
     if mism:
         case, got, exp = mism[0]
         res.violation("counterexample", "string operation differs from Python's code-point semantics", dict(input=case, expected=exp, observed=got,
